@@ -218,6 +218,19 @@ def wait_for_memory(need_kb, max_wait=900):
         time.sleep(5)
 
 
+def parse_playbacks(path):
+    """all concrete-value vectors printed by --concrete-playback=print (one per failed check / satisfied cover)"""
+    txt = open(path, errors="replace").read()
+    out = []
+    for m in re.finditer(r"let concrete_vals: Vec<Vec<u8>> = vec!\[(.*?)\n\s*\];", txt, re.S):
+        vals = []
+        for vm in re.finditer(r"vec!\[([^\]]*)\]", m.group(1)):
+            body = vm.group(1).strip()
+            vals.append([int(x) for x in body.split(",") if x.strip()] if body else [])
+        out.append(vals)
+    return out
+
+
 class Runner:
     def __init__(self, pid, tier, seed, jobs, keep):
         self.pid, self.tier, self.seed, self.jobs, self.keep = pid, tier, seed, jobs, keep
@@ -318,14 +331,17 @@ class Runner:
         self.native_built[profile] = exe
         return exe
 
-    def replay_native(self, h, vals, profile):
+    def replay_native(self, h, vals, profile, lenient=False):
         """-> (reproduced: bool|None, output)"""
         exe = self.build_native(profile)
         if exe is None:
             return None, "native replay binary does not build"
         arg = json.dumps({"harness": h.name, "vals": vals})
         try:
-            p = subprocess.run([exe, arg], capture_output=True, text=True, timeout=120)
+            env = dict(os.environ)
+            if lenient:
+                env["VERIF_REPLAY_LENIENT"] = "1"
+            p = subprocess.run([exe, arg], capture_output=True, text=True, timeout=120, env=env)
         except subprocess.TimeoutExpired:
             return None, "native replay timed out (schedule not realisable or deadlock)"
         out = (p.stdout + p.stderr)[-3000:]
@@ -430,13 +446,16 @@ def run(rn, mod, hs, args, t_start):
         vals = parse_playback(pb["log"])
         rec = {"property": pid, "harness": h.name, "desc": h.desc, "kani_failure": r["why"],
                "concrete_vals": vals, "tier": rn.tier}
+        lenient = False
         if vals is None:
-            r["why"] += " | no concrete values could be extracted"
-            inconclusive.append((h, r))
-            continue
+            # Kani's playback prints nothing when no nondeterministic value matters for the failure (typical for the
+            # shape-enumerated harnesses whose schedule is a constant of the harness): replay with zero values; the
+            # harness' assumptions are still checked natively, and a native violation is a violation whatever the input
+            vals, lenient = [], True
+            rec["concrete_vals"] = "none extracted by Kani; replayed with zero values (assumptions checked natively)"
         outcomes = {}
         for profile in h.replay_profiles:
-            ok, out = rn.replay_native(h, vals, profile)
+            ok, out = rn.replay_native(h, vals, profile, lenient=lenient)
             outcomes[profile] = {"reproduced": ok, "output": out[-1500:]}
             replays_done += 1
         rec["native"] = outcomes
@@ -453,6 +472,33 @@ def run(rn, mod, hs, args, t_start):
             findings_hit.append((kf, h, r))
         else:
             violations.append((h, r, path, repro))
+
+    # ---- validate the schedule model against the implementation: replay reachability-witness traces of passing
+    # harnesses (concrete schedules the model admits) natively on real threads; they must be realisable and hold
+    witness = {"replayed": 0, "held": 0, "not_realised": 0, "violated": 0, "samples": []}
+    n_w = int(os.environ.get("VERIF_WITNESS_REPLAYS", "2" if rn.tier == "quick" else "8"))
+    if n_w > 0 and not violations and not args.only:
+        cands = [i for i, h in enumerate(hs) if results[i]["verdict"] == "pass" and h.sched and results[i]["covers"]
+                 and h.desc.get("schedule") == "symbolic"]
+        cands = sorted(cands, key=lambda i: results[i]["wall"])[:n_w]
+        for i in cands:
+            pb = rn.run_harness(hs[i], f"w{i}", playback=True)
+            for vals in parse_playbacks(pb["log"])[:3]:
+                ok, out = rn.replay_native(hs[i], vals, "dev")
+                witness["replayed"] += 1
+                replays_done += 1
+                kind = "violated" if ok else ("held" if ok is False else "not_realised")
+                witness[kind] += 1
+                if len(witness["samples"]) < 4 or kind != "held":
+                    witness["samples"].append({"harness": hs[i].name, "vals": vals[:12], "native": kind, "output": out[-200:]})
+                if kind == "violated":
+                    r = dict(results[i])
+                    r["verdict"], r["why"] = "inconclusive", ("a schedule the model accepts as passing violates the harness assertion natively "
+                                                             "(model / implementation disagreement): " + out[-300:])
+                    inconclusive.append((hs[i], r))
+        log(f"[{pid}] witness traces replayed natively: {witness['replayed']} (held {witness['held']}, "
+            f"not realised {witness['not_realised']}, violated {witness['violated']})")
+    rn.witness = witness
 
     wall = time.time() - t_start
     if not args.no_evidence:
@@ -502,8 +548,10 @@ def replay_saved(rn, hs, path):
         log(f"harness {rec['harness']} not generated for this tier; try --tier {rec.get('tier')}")
         return 2
     any_repro = False
+    vals = rec["concrete_vals"]
+    lenient = not isinstance(vals, list)
     for profile in h.replay_profiles:
-        ok, out = rn.replay_native(h, rec["concrete_vals"], profile)
+        ok, out = rn.replay_native(h, vals if not lenient else [], profile, lenient=lenient)
         log(f"--- native replay ({profile}): reproduced={ok}\n{out}")
         any_repro |= bool(ok)
     if any_repro:
@@ -557,6 +605,7 @@ def write_evidence(rn, mod, hs, results, violations, findings_hit, inconclusive,
             "engine": "Kani 0.68.0 / CBMC 6.11.0 (cadical), unwinding assertions on",
             "inconclusive": [{"harness": h.name, "why": r["why"][:200]} for h, r in inconclusive],
             "known_findings_hit": sorted({k["id"] for k, _, _ in findings_hit}),
+            "witness_traces_replayed_natively": getattr(rn, "witness", {}),
             "configs": [h.desc for h in hs][:400],
         },
         "assumptions": meta.get("assumptions", []),
